@@ -296,8 +296,24 @@ def _convert_file_to_config(filepath: str = None, variables_dictionary: dict = g
 
     configs = list()
 
+    spec_keys = {"applications", "mode", "transport_type", "watchdog_timeout",
+                 "local", "peer"}
+    node_keys = {"hostname", "realm", "ip_address", "port"}
+
     for spec in from_config_file["spec"]:
         transport_type = "tcp"
+
+        #: A key nobody reads is most likely a misspelt one (transport_typ):
+        #: it is reported, not ignored.
+        for key in spec:
+            if key not in spec_keys:
+                raise InvalidConfigKey(f"Invalid config key '{key}' found")
+
+        for node in ("local", "peer"):
+            for key in spec[node]:
+                if key not in node_keys:
+                    raise InvalidConfigKey(f"Invalid config key '{key}' "\
+                                           f"found under '{node}'")
 
         for application in spec["applications"]:
             vendor_id = application["vendor_id"]
